@@ -1,5 +1,6 @@
 //! Reference models. None of these may use zerv code.
 pub mod san;
 pub mod semver;
+pub mod ren;
 pub mod cal;
 pub mod pep440;
